@@ -159,7 +159,7 @@ func (i *Interpreter) executeAssign(stmt AssignStatement, env *Environment) (int
 	// defined in environment.go and returns BindingUser when no specific
 	// source is recorded; BindingPathParam and BindingQueryParam are the
 	// enum values for route-bound variables.
-	if env.HasLocal(stmt.Target) {
+	if src, _ := env.LocalSource(stmt.Target); env.HasLocal(stmt.Target) && src != BindingRequest {
 		if src, ok := env.LocalSource(stmt.Target); ok {
 			switch src {
 			case BindingPathParam:
